@@ -131,9 +131,9 @@ Judge(p) ==
                                    /\ VarIds(pair[1]) \cap VarIds(pair[2]) # {}}
 
       (* A declaration that cppcheck does not keep apart: its own token is linked to another variable, or it has the  *)
-      (* varId of a token that means something else.  Every deviation that involves such a declaration (as the token, *)
+      (* varId of another declaration.  Every deviation that involves such a declaration (as the token, *)
       (* or as the declaration the token should be bound to) is one class, named by the kind of the declaration.      *)
-      NotDistinct == {d \in T : d.role = "decl" /\ (d \in BadVar \/ \E q \in Shared : q[1] = d)}
+      NotDistinct == {d \in T : d.role = "decl" /\ (d \in BadVar \/ \E q \in Shared : q[1] = d /\ q[2].role = "decl")}
       DeclOf(t) == IF At(Exp(t)) # {} THEN CHOOSE d \in At(Exp(t)) : TRUE ELSE t
       Root(t) == IF t \in NotDistinct THEN {t} ELSE IF Judgeable(t) /\ Expected(t) # {} /\ DeclOf(t) \in NotDistinct THEN {DeclOf(t)} ELSE {}
       RootKey(d) == "declaration-not-distinct:" \o TokKind(pr, d)
@@ -149,7 +149,7 @@ Judge(p) ==
                     what |-> "token " \o t.nm \o " at " \o PosStr(Pos(t)) \o " has a varId different from the one of its declaration at " \o PosStr(Exp(t))]
       \* a shared varId is reported once per pair, unless one of the two tokens is already reported as wrongly linked
       SharedRep == {q \in Shared : q[1].role = "decl" /\ q[2] \notin BadVar /\ q[2] \notin BadId /\ q[1] \notin BadVar /\ q[1] \notin BadId
-                                   /\ (q[2].role = "decl" => <<q[1].i, q[1].s>> \prec <<q[2].i, q[2].s>>)}
+                                   /\ (q[2].role = "decl" => (q[1].i < q[2].i \/ (q[1].i = q[2].i /\ q[1].s < q[2].s)))}
       SharedItem(q) == [kind |-> "shared-varid",
                         key  |-> IF Root(q[1]) \cup Root(q[2]) # {} THEN RootKey(CHOOSE d \in Root(q[1]) \cup Root(q[2]) : TRUE)
                                  ELSE "shared-varid:" \o TokKind(pr, q[1]) \o ":with=" \o TokKind(pr, q[2]),
